@@ -29,6 +29,16 @@ CVRP_UPDATE_STALE = '''        td.set("action_mask", self.get_action_mask(td))
 
 CORPUS = [
     # ---------------------------------------------------------------- C01
+    V("C01", "mdcpdp-available-or-deliverable", "rl4co/envs/routing/mdcpdp/env.py", 'action_mask = available & to_deliver', 'action_mask = available | to_deliver', 'C01.p'),
+    V("C01", "mdcpdp-customers-open-after-return", "rl4co/envs/routing/mdcpdp/env.py", 'action_mask[..., num_depot:] &= ~back_flag.expand_as(action_mask[..., num_depot:])', 'action_mask[..., num_depot:] &= back_flag.expand_as(action_mask[..., num_depot:])', 'C01.p'),
+    V("C01", "mdcpdp-current-depot-open-after-return", "rl4co/envs/routing/mdcpdp/env.py", 'action_mask[..., :num_depot].scatter_(-1, current_depot, ~back_flag)', 'action_mask[..., :num_depot].scatter_(-1, current_depot, back_flag)', 'C01.p'),
+    V("C01", "mdcpdp-last-depot-flag-flipped", "rl4co/envs/routing/mdcpdp/env.py", 'torch.sum(available[..., :num_depot].long(), dim=-1, keepdim=True) == 0', 'torch.sum(available[..., :num_depot].long(), dim=-1, keepdim=True) != 0', 'C01.p'),
+    V("C01", "mdcpdp-pickup-open-at-capacity", "rl4co/envs/routing/mdcpdp/env.py", '        ] &= ~capacity_flag  # If reach', '        ] &= capacity_flag  # If reach', 'C01.p'),
+    V("C01", "mdcpdp-depot-open-while-carrying", "rl4co/envs/routing/mdcpdp/env.py", '        ] &= ~carry_flag  # If carrying', '        ] |= carry_flag  # If carrying', 'C01.p'),
+    V("C01", "mdcpdp-carrying-includes-zero", "rl4co/envs/routing/mdcpdp/env.py", 'carry_flag = current_carry > 0', 'carry_flag = current_carry >= 0', None),
+    V("C01", "eq-mdcpdp-mask-commuted", "rl4co/envs/routing/mdcpdp/env.py", 'action_mask = available & to_deliver', 'action_mask = to_deliver & available', None),
+    V("C01", "eq-mdcpdp-capacity-negated-lt", "rl4co/envs/routing/mdcpdp/env.py", 'capacity_flag = current_carry >= current_capacity', 'capacity_flag = ~(current_carry < current_capacity)', None),
+    V("C01", "eq-mdcpdp-slice-assign", "rl4co/envs/routing/mdcpdp/env.py", 'action_mask[..., num_depot:] &= ~back_flag.expand_as(action_mask[..., num_depot:])', 'action_mask[..., num_depot:] = action_mask[..., num_depot:] & ~back_flag', None),
     V("C01", "svrp-last-tech-flipped", "rl4co/envs/routing/svrp/env.py", '(td["current_tech"] == td["techs"].size(-2) - 1)', '(td["current_tech"] != td["techs"].size(-2) - 1)', 'C01.b'),
     V("C01", "svrp-last-tech-off-by-two", "rl4co/envs/routing/svrp/env.py", '(td["current_tech"] == td["techs"].size(-2) - 1)', '(td["current_tech"] == td["techs"].size(-2) + 1)', 'C01.s'),
     V("C01", "svrp-last-tech-wrong-axis", "rl4co/envs/routing/svrp/env.py", '(td["current_tech"] == td["techs"].size(-2) - 1)', '(td["current_tech"] == td["techs"].size(-1) - 1)', 'C01.s'),
@@ -73,6 +83,11 @@ def for_prop(prop):
 
 CORPUS += [
     # ---------------------------------------------------------------- C05
+    V("C05", "mdcpdp-delivery-closed-at-capacity", "rl4co/envs/routing/mdcpdp/env.py", '            ..., num_depot:pd_split_idx\n        ] &= ~capacity_flag', '            ..., num_depot:\n        ] &= ~capacity_flag', 'C05.e'),
+    V("C05", "mdcpdp-final-depot-closed", "rl4co/envs/routing/mdcpdp/env.py", 'action_mask[..., :num_depot].gather(-1, current_depot) | done,', 'action_mask[..., :num_depot].gather(-1, current_depot) & done,', 'C05.e'),
+    V("C05", "mdcpdp-depot-closed-when-empty", "rl4co/envs/routing/mdcpdp/env.py", 'carry_flag = current_carry > 0', 'carry_flag = current_carry >= 0', 'C05.e'),
+    V("C05", "mdcpdp-other-depots-closed-after-return", "rl4co/envs/routing/mdcpdp/env.py", 'action_mask[..., :num_depot] &= back_flag.expand_as(action_mask[..., :num_depot])', 'action_mask[..., :num_depot] &= ~back_flag.expand_as(action_mask[..., :num_depot])', 'C05.e'),
+    V("C05", "eq-mdcpdp-carry-yoda", "rl4co/envs/routing/mdcpdp/env.py", 'carry_flag = current_carry > 0', 'carry_flag = 0 < current_carry', None),
     V("C05", "cvrp-depot-pruned-away-from-depot", "rl4co/envs/routing/cvrp/env.py", 'mask_depot = (td["current_node"] == 0) & (', 'mask_depot = (td["current_node"] != 0) & (', 'C05.c'),
     V("C05", "sdvrp-depot-pruned-away-from-depot", "rl4co/envs/routing/sdvrp/env.py", 'mask_depot = (td["current_node"] == 0).squeeze(-1) & (', 'mask_depot = (td["current_node"] != 0).squeeze(-1) & (', 'C05.c'),
     V("C05", "mtvrp-depot-pruned-away-from-depot", "rl4co/envs/routing/mtvrp/env.py", 'can_visit[:, 0] = ~((curr_node == 0) & (can_visit[:, 1:].sum(-1) > 0))', 'can_visit[:, 0] = ~((curr_node != 0) & (can_visit[:, 1:].sum(-1) > 0))', 'C05.c'),
